@@ -243,8 +243,9 @@ func lzhuf.(*Reader).Read(d, p) (n, err)
   ensures header: d.header.size == old(d.header.size) && d.header.crc == old(d.header.crc)
   # a stream that has delivered its declared size is never reported as truncated; with nothing
   # buffered and no reader error its end is io.EOF
-  ensures complete-stream-not-truncated [C06 C08]: old(d.state.pos) >= d.header.size && old(d.err) == nil && (old(d.r.err) == nil || old(d.r.err) == io.EOF) ==> err != io.ErrUnexpectedEOF
-  ensures end-of-stream-is-eof [C06 C08]: old(d.state.pos) >= d.header.size && old(d.state.buf.len) == 0 && old(d.err) == nil && old(d.r.err) == nil ==> err == io.EOF && n == 0 && d.err == nil
+  ensures complete-stream-not-truncated [C06 C07 C08]: old(d.state.pos) >= d.header.size && old(d.err) == nil && (old(d.r.err) == nil || old(d.r.err) == io.EOF) ==> err != io.ErrUnexpectedEOF
+  ensures eof-only-when-everything-is-delivered [C06 C07 C08]: err == io.EOF && old(d.err) == nil && old(d.r.err) == nil ==> old(d.state.buf.len) == 0 && old(d.state.pos) >= d.header.size
+  ensures end-of-stream-is-eof [C06 C07 C08]: old(d.state.pos) >= d.header.size && old(d.state.buf.len) == 0 && old(d.err) == nil && old(d.r.err) == nil ==> err == io.EOF && n == 0 && d.err == nil
   loop 0 invariant inv: ReaderInv(d)
   loop 0 invariant n: 0 <= n && n <= len(p)
   loop 0 invariant delivered: d.state.pos - d.state.buf.len - n == old(d.state.pos) - old(d.state.buf.len)
@@ -537,9 +538,9 @@ func lzhuf.(*crcWriter).Write(w, p) (n, err)
 
 # Close returns success only if every integrity verdict holds
 func lzhuf.(*Reader).Close(d) (err)
-  props C08 C04 C06
+  props C08 C04 C06 C07
   # ... and reports success whenever they all hold (C06: Close reports success for a genuine stream)
-  ensures success-when-every-verdict-holds [C06]: d.err == nil && d.r.err == nil && (!d.crc16 || d.header.crc == crcFlush(d.crcw.sum)) && d.header.size == wrap32s(d.state.pos - d.state.buf.len) ==> err == nil
+  ensures success-when-every-verdict-holds [C06 C07]: d.err == nil && d.r.err == nil && (!d.crc16 || d.header.crc == crcFlush(d.crcw.sum)) && d.header.size == wrap32s(d.state.pos - d.state.buf.len) ==> err == nil
   requires inv: d.crcw != nil
   ensures verdict-err: err == nil ==> d.err == nil && d.r.err == nil
   ensures verdict-size: err == nil ==> d.header.size == wrap32s(d.state.pos - d.state.buf.len)
